@@ -274,28 +274,28 @@ def maskS (w c : Nat) (bits : BitVec w) : BitVec w :=
 
 /-- bitfieldRotateRight, bitfield.inl:249-256 — AS IT IS (it rotates to the LEFT):
     `int const BitSize = static_cast<T>(sizeof(T)*8);
-     return (In << static_cast<T>(Shift)) | (In >> static_cast<T>(BitSize - Shift));` -/
+     return (In << static_cast<T>(Shift)) | (In >> static_cast<T>((BitSize - Shift) & (BitSize - 1)));` -/
 def bitfieldRotateRightU (w c : Nat) (x : BitVec w) (sh : BitVec 32) : BitVec w :=
   let p : BitVec c := zx c x
   let c1 : BitVec c := zx c (tr w sh : BitVec w)
-  let c2 : BitVec c := zx c (tr w (BitVec.ofNat 32 w - sh) : BitVec w)
+  let c2 : BitVec c := zx c (tr w ((BitVec.ofNat 32 w - sh) &&& BitVec.ofNat 32 (w - 1)) : BitVec w)
   tr w ((p <<< c1) ||| (p >>> c2))
 def bitfieldRotateRightS (w c : Nat) (x : BitVec w) (sh : BitVec 32) : BitVec w :=
   let p : BitVec c := sx c x
   let c1 : BitVec c := sx c (tr w sh : BitVec w)
-  let c2 : BitVec c := sx c (tr w (BitVec.ofNat 32 w - sh) : BitVec w)
+  let c2 : BitVec c := sx c (tr w ((BitVec.ofNat 32 w - sh) &&& BitVec.ofNat 32 (w - 1)) : BitVec w)
   tr w ((p <<< c1) ||| (p.sshiftRight' c2))
 /-- bitfieldRotateLeft, bitfield.inl:267-274 — AS IT IS (it rotates to the RIGHT):
-    `return (In >> static_cast<T>(Shift)) | (In << static_cast<T>(BitSize - Shift));` -/
+    `return (In >> static_cast<T>(Shift)) | (In << static_cast<T>((BitSize - Shift) & (BitSize - 1)));` -/
 def bitfieldRotateLeftU (w c : Nat) (x : BitVec w) (sh : BitVec 32) : BitVec w :=
   let p : BitVec c := zx c x
   let c1 : BitVec c := zx c (tr w sh : BitVec w)
-  let c2 : BitVec c := zx c (tr w (BitVec.ofNat 32 w - sh) : BitVec w)
+  let c2 : BitVec c := zx c (tr w ((BitVec.ofNat 32 w - sh) &&& BitVec.ofNat 32 (w - 1)) : BitVec w)
   tr w ((p >>> c1) ||| (p <<< c2))
 def bitfieldRotateLeftS (w c : Nat) (x : BitVec w) (sh : BitVec 32) : BitVec w :=
   let p : BitVec c := sx c x
   let c1 : BitVec c := sx c (tr w sh : BitVec w)
-  let c2 : BitVec c := sx c (tr w (BitVec.ofNat 32 w - sh) : BitVec w)
+  let c2 : BitVec c := sx c (tr w ((BitVec.ofNat 32 w - sh) &&& BitVec.ofNat 32 (w - 1)) : BitVec w)
   tr w ((p.sshiftRight' c1) ||| (p <<< c2))
 
 /-- bitfieldFillOne (patched), bitfield.inl:285-289:
